@@ -150,6 +150,30 @@ class C18Engine(Engine):
         l = set(out.get("labels", ()))
         return "help-then-shorter" in l and "conversion-failure" in l
 
+    def sweep(self, tier: str):
+        """Every place where a number is expected x tokens that are no number (among them argparse's and Python's own markers)."""
+        tokens = ["==SUPPRESS==", "x", "1.5", "None", "0x1", "1_0_", "one", "True", "[1]", "1;2", "%d", "{}", "-", "--"]
+        sites = {"TaskPool": ["cancel {t}", "cancel 0 {t}", "pool-size {t}", "apply vt.ctl.hmod.quick -n {t}", "apply vt.ctl.hmod.quick --num {t}",
+                              "map vt.ctl.hmod.quick [1] -n {t}", "starmap vt.ctl.hmod.quick [(1,)] --num-concurrent {t}",
+                              "doublestarmap vt.ctl.hmod.quick [] -n {t}"],
+                 "SimpleTaskPool": ["cancel {t}", "pool-size {t}", "start {t}", "stop {t}"]}
+        cases = []
+        for cls, lines in sites.items():
+            for line in lines:
+                for t in tokens:
+                    if t in ("-", "--") and "{t}" == line.split(" ")[-1] and line.count(" ") == 1 and t == "--":
+                        continue      # 'cancel --' means 'no ids': a missing argument, still a message
+                    for width in (80, 20):
+                        c = {"cls": cls, "size": None, "width": width, "nsess": 1, "stop_phase": False, "lines": [
+                            {"kind": "valid", "text": "num-running", "s": 0},
+                            {"kind": "badargs", "text": line.format(t=t), "s": 0},
+                            {"kind": "valid", "text": "num-ended", "s": 0},
+                            {"kind": "help", "text": line.split(" ")[0] + " -h", "s": 0}]}
+                        if cls == "SimpleTaskPool":
+                            c["sfunc"] = "quick"
+                        cases.append(c)
+        return ("every place a number is expected x 14 tokens that are no number x 2 widths", cases, len(cases))
+
     def floors(self):
         return {"help-then-shorter": 0.2, "conversion-failure": 0.15, "sessions:>=2": 0.3, "kind:junk": 0.5}
 
